@@ -799,7 +799,7 @@ class Models:
 
     def x_shutil_copytree(self):
         from . import fsmodel
-        return Builtin('shutil.copytree', lambda ex_, a, k: fsmodel.sh_copy(ex_, a[0], a[1], 'copytree'))
+        return Builtin('shutil.copytree', lambda ex_, a, k: fsmodel.sh_copy(ex_, a[0], a[1], 'copytree', **k))
 
     def x_shutil(self):
         return ModuleVal(('ext', 'shutil'))
